@@ -520,7 +520,10 @@ size_t ZSTD_seekable_decompress(ZSTD_seekable* zs, void* dst, size_t len, unsign
             }
         }
 
-        while (zs->decompressedOffset < offset + len) {
+        /* when the read ends exactly where the current frame ends, keep going until the frame completes :
+         * only then are its checksums verified (the frame's own, and the seek table's) */
+        while ( (zs->decompressedOffset < offset + len)
+             || (zs->decompressedOffset == zs->seekTable.entries[targetFrame + 1].dOffset) ) {
             size_t toRead;
             ZSTD_outBuffer outTmp;
             size_t prevOutPos;
